@@ -20,6 +20,20 @@ impl exmex::MakeOperators<f64> for ReversedFloatOps {
         v
     }
 }
+thread_local! {
+    static EXCLUDED: std::cell::RefCell<Vec<&'static str>> = const { std::cell::RefCell::new(Vec::new()) };
+}
+/// The default float operators without the ones named in the thread-local list: a user's
+/// operator table that is a subset of the defaults.  A derivative rule whose result needs an
+/// operator that is not in the table cannot return a wrong expression - it is an error.
+#[derive(Clone, Debug)]
+pub struct SubsetFloatOps;
+impl exmex::MakeOperators<f64> for SubsetFloatOps {
+    fn make<'a>() -> Vec<exmex::Operator<'a, f64>> {
+        let ex = EXCLUDED.with(|e| e.borrow().clone());
+        <exmex::FloatOpsFactory<f64> as exmex::MakeOperators<f64>>::make().into_iter().filter(|o| !ex.contains(&o.repr())).collect()
+    }
+}
 type FlatRev = FlatEx<f64, ReversedFloatOps>;
 type DeepRev<'a> = DeepEx<'a, f64, ReversedFloatOps>;
 
@@ -199,6 +213,59 @@ fn float_case(rng: &mut Rng, st: &mut Stats) {
                 }
             }
             Err(m) => st.violation(format!("panic2|{text}"), text.len() + 100, json!({"kind": "second-derivative-panic", "text": text, "panic": m})),
+        }
+    }
+}
+
+/// differentiation over a subset of the default operators: Err, or the true derivative
+fn subset_table_case(rng: &mut Rng, st: &mut Stats) {
+    const CANDIDATES: &[&str] = &["ln", "cos", "sin", "exp", "sqrt", "cosh", "sinh", "tanh", "tan", "log", "log2", "log10", "atan", "asin", "acos"];
+    let k = rng.range(1, 3);
+    let excluded: Vec<&'static str> = (0..k).map(|_| *rng.pick(CANDIDATES)).collect();
+    let table: Table = diff_table(rng, false).into_iter().filter(|o| !excluded.contains(&o.name)).collect();
+    let tree = gen_diff_tree(rng, &table, 6);
+    let vars = tree.vars();
+    if vars.is_empty() {
+        return;
+    }
+    let text = render(&tree, &table, rng, &RenderCfg::plain());
+    let wrt = rng.below(vars.len());
+    let deep = rng.chance(1, 2);
+    st.bump("cases");
+    st.bump("subset_table_cases");
+    st.class(("subset", excluded.clone(), tree.shape_key(&table)));
+    EXCLUDED.with(|e| *e.borrow_mut() = excluded.clone());
+    let r = catch(|| -> Result<FlatEx<f64, SubsetFloatOps>, String> {
+        let e = |x: exmex::ExError| x.msg().to_string();
+        if deep {
+            FlatEx::from_deepex(DeepEx::<f64, SubsetFloatOps>::parse(&text).map_err(e)?.partial(wrt).map_err(e)?).map_err(e)
+        } else {
+            FlatEx::<f64, SubsetFloatOps>::parse(&text).map_err(e)?.partial(wrt).map_err(e)
+        }
+    });
+    let d = match r {
+        Err(m) => {
+            st.violation(format!("subset-panic|{excluded:?}|{text}"), text.len(), json!({"kind": "derivative-panic-over-subset-table", "text": text, "operators_missing_from_the_table": excluded, "panic": m}));
+            return;
+        }
+        Ok(Err(_)) => {
+            st.bump("subset_table_cases_reported_as_error");
+            return;
+        }
+        Ok(Ok(d)) => d,
+    };
+    for _ in 0..3 {
+        let p = sample_point(rng, vars.len());
+        let Some((_, want, mag)) = ref_d1(&tree, &table, &vars, &p, wrt) else { continue };
+        st.bump("subset_table_points_judged");
+        let got = d.eval(&p).unwrap_or(f64::NAN);
+        if !close(got, want, mag, 1e-9) {
+            st.violation(
+                format!("subset-value|{excluded:?}|{text}|d{}", vars[wrt]),
+                text.len(),
+                json!({"kind": "derivative-value-over-subset-table", "text": text, "operators_missing_from_the_table": excluded, "wrt": vars[wrt], "point": p, "got": got, "true_derivative": want, "derivative_text": d.unparse()}),
+            );
+            return;
         }
     }
 }
@@ -393,7 +460,9 @@ pub fn run(ctx: &Ctx) -> i32 {
         let quota = share(n, w, ctx.threads);
         let rtable = sub_table(&["+", "-", "*", "/", "^"], true);
         for i in 0..quota {
-            if i % 16 == 5 {
+            if i % 16 == 9 {
+                subset_table_case(rng, st);
+            } else if i % 16 == 5 {
                 long_level_case(rng, &rtable, st);
             } else if i % 4 == 3 {
                 rat_case(rng, &rtable, st);
@@ -403,7 +472,7 @@ pub fn run(ctx: &Ctx) -> i32 {
         }
     });
     let mut report = Report::new(
-        "random trees (1..10 operands, depth-unbounded) over + - * / ^ (literal, variable and compound exponents), unary + -, the 18 elementary functions and the constants, rendered in random spellings; derivative obtained through FlatEx::partial, DeepEx::partial, flat->deep->partial, deep->flat->partial, and a second time for order 2 (by a second single call, by partial_iter or by partial_nth on the original); long parenthesis-free chains of 18..48 operands on one nesting level, parsed directly as deep expressions, over exact rationals; compared at random points with forward-mode dual numbers evaluated on the reference tree. f64: |D-R| <= 1e-9 max(|R|, 1e-6 M) at points that pass interior-domain guards (arguments 0.05 away from every singularity, magnitudes < 1e6) and a conditioning filter; exact rationals (+ - * / and integer literal powers): equality. A tree containing an operator without a derivative rule over a variable must yield Err (or, if a derivative is returned, a correct one). distinct_nontrivial = distinct (tree shape, text length) classes.",
+        "random trees (1..10 operands, depth-unbounded) over + - * / ^ (literal, variable and compound exponents), unary + -, the 18 elementary functions and the constants, rendered in random spellings; derivative obtained through FlatEx::partial, DeepEx::partial, flat->deep->partial, deep->flat->partial, and a second time for order 2 (by a second single call, by partial_iter or by partial_nth on the original); long parenthesis-free chains of 18..48 operands on one nesting level, parsed directly as deep expressions, over exact rationals; operator tables that are subsets of the defaults (a rule that needs a missing operator must give Err, never another expression); compared at random points with forward-mode dual numbers evaluated on the reference tree. f64: |D-R| <= 1e-9 max(|R|, 1e-6 M) at points that pass interior-domain guards (arguments 0.05 away from every singularity, magnitudes < 1e6) and a conditioning filter; exact rationals (+ - * / and integer literal powers): equality. A tree containing an operator without a derivative rule over a variable must yield Err (or, if a derivative is returned, a correct one). distinct_nontrivial = distinct (tree shape, text length) classes.",
     )
     .assume("points failing the guards or the conditioning filter are discarded and counted, never judged")
     .assume("0^0 'both zero' errors of the power shortcut are counted, not judged")
@@ -411,6 +480,8 @@ pub fn run(ctx: &Ctx) -> i32 {
     .require("second_order_points_judged", 1000)
     .require("reversed_table_points_judged", 1000)
     .require("exact_points_judged", 5000)
+    .require("subset_table_points_judged", 2000)
+    .require("subset_table_cases_reported_as_error", 100)
     .require("long_single_level_chain_points_judged_deep_parse", 2000)
     .require("second_order_by_partial_iter", 300)
     .require("second_order_by_partial_nth", 100)
